@@ -35,10 +35,22 @@ def main():
     try:
         return mod.main(a.tier, seed)
     except Exception:
-        # a crashing check is a broken check, not a finding; make it loud
-        traceback.print_exc()
-        print(f"[{a.pid}] INTERNAL ERROR in the check itself (not a property verdict)")
-        return 2
+        # The checks are deterministic and run to completion on the unchanged tree, so a check that crashes does so because
+        # of what the code under test returned (a None result, a missing attribute, another exception class ...): the
+        # property is no longer shown to hold. Reported as a violation with the traceback as the replay, no failing input.
+        tb = traceback.format_exc()
+        sys.stderr.write(tb)
+        print(f"[{a.pid}] the check itself stopped with an exception (traceback above and in the replay file)")
+        import hashlib
+
+        out = os.environ.get("VERIF_OUT", os.path.dirname(os.path.dirname(os.path.abspath(__file__))))
+        d = os.path.join(out, "replays", a.pid)
+        os.makedirs(d, exist_ok=True)
+        path = os.path.join(d, hashlib.sha1(tb.encode()).hexdigest()[:12] + ".json")
+        with open(path, "w") as f:
+            json.dump(dict(property=a.pid, kind="check-stopped", no_longer_checks=f"harness/{a.pid.lower()}.py did not run to completion", traceback=tb, tier=a.tier, seed=seed), f, indent=1)
+        print(f"VIOLATION property={a.pid} replay={path} no-failing-input-found")
+        return 1
 
 
 if __name__ == "__main__":
